@@ -222,6 +222,10 @@ pub fn run(cfg: &Cfg) -> Report {
         if rng.chance(1, 5) {
             b.scn.coop = rng.range(1, 9) as u32;
         }
+        // every sixth scenario: the service suspends inside handle() (an arrival or a stream item may become ready meanwhile)
+        if rng.chance(1, 6) {
+            b.scn.handle_yields = rng.range(1, 2) as u8;
+        }
         let order = random_interleaving(&b.chains, &mut rng);
         let style = rng.below(3);
         b.scn.steps = order
